@@ -494,6 +494,15 @@ func (o *ShelleyTransactionOutput) UnmarshalCBOR(cborData []byte) error {
 	return nil
 }
 
+// MarshalCBOR returns the stored CBOR of a decoded output so that
+// re-serialising it reproduces the wire bytes (as the transaction body does)
+func (o *ShelleyTransactionOutput) MarshalCBOR() ([]byte, error) {
+	if o.Cbor() != nil {
+		return o.Cbor(), nil
+	}
+	return cbor.EncodeGeneric(o)
+}
+
 func (o ShelleyTransactionOutput) ToPlutusData() data.PlutusData {
 	var valueData [][2]data.PlutusData
 	if o.OutputAmount > 0 {
